@@ -40,6 +40,7 @@ fn run(sut: &dyn Sut, parse: &dyn Fn(&str) -> Option<Op>, a: &Args) -> i32 {
         max_findings: a.num("max_findings", 20),
     };
     let mode = a.get("mode").unwrap_or("bfs");
+    start_watchdog(a.num("op_timeout", 10) as u64, a.get("stats").map(|s| s.to_string()), sut.name());
     let mut out: Box<dyn Write> = match a.get("out") {
         Some(p) => Box::new(BufWriter::with_capacity(1 << 20, std::fs::File::create(p).expect("out"))),
         None => Box::new(BufWriter::new(std::io::stdout())),
